@@ -110,6 +110,7 @@ PATS = {
 }
 OPTLIST = ["no_deps", "export", "unimock", "mockall", "mock_api = M", "?Send", "unimock = false", "mockall = false", "export = false",
            "delegate_by = ref", "debug = false"]
+VISLEADS = ["pub", "pub(crate)", "pub(self)", "pub(super)", "pub(in self)", "pub(in super)", "pub(in super::super)", "pub(in crate)", "pub(in crate::x)", "pub(in ::x)"]
 RECVS = {"norecv": "", "val": "self", "mutref": "&mut self"}
 DELEG = {
     "default": "",
@@ -144,6 +145,12 @@ def enumerate_states(tier):
                     states.append(dict(key="o_%s_%s_%s" % (item, "_".join(map(str, sel)), "x" if variant == "entrait_export" else "e"), kind="attr", item=item,
                                        word=[], text=lead + ", ".join(OPTLIST[i] for i in sel), variant=variant))
                     transitions += 1
+    # every way of writing the requested trait visibility, on fn and mod items
+    for vi, vis in enumerate(VISLEADS):
+        for item in ("fn", "mod"):
+            for ti, tail in enumerate(("", ", mockall", ", no_deps" if item == "fn" else ", ?Send")):
+                states.append(dict(key="ov_%s_%d_%d" % (item, vi, ti), kind="attr", item=item, word=[], text="%s Foo%s" % (vis, tail), variant="entrait"))
+                transitions += 1
     for name, attr, lines, msg, line in MISUSE:
         for variant in ("entrait", "entrait_export"):
             states.append(dict(key="u_%s_%s" % (name.replace("-", "_"), "x" if variant == "entrait_export" else "e"),
